@@ -25,10 +25,10 @@ type CaseC13 struct {
 	Prior   HexBytes   `json:"prior,omitempty"` // bytes already in the output buffer
 	// output buffer shape for the write side: pre-sized to Cap, Fill bytes of 0xEE written, Fill-Keep of them read
 	// away (so the buffer may recycle its own storage, which still holds old bytes, when the field is written)
-	Cap  int `json:"cap,omitempty"`
-	Fill int `json:"fill,omitempty"`
-	Keep int `json:"keep,omitempty"`
-	Tail    HexBytes   `json:"tail,omitempty"`  // bytes after the field on the read side
+	Cap  int      `json:"cap,omitempty"`
+	Fill int      `json:"fill,omitempty"`
+	Keep int      `json:"keep,omitempty"`
+	Tail HexBytes `json:"tail,omitempty"` // bytes after the field on the read side
 }
 
 func strs(l []HexBytes) []string {
@@ -294,9 +294,23 @@ func genTextAround(rt *rapid.T, label string, n int, pad byte) []byte {
 	return genBytesBiased(rt, label, l, pad)
 }
 
-var utf8Bits = [][]byte{[]byte("é"), []byte("中"), []byte("\xe9"), []byte("\xc3"), []byte("\xf0\x9f\x98\x80"), {0xc2, 0x80}, {0xef, 0xbf, 0xbd}}
+var utf8Bits = [][]byte{[]byte("é"), []byte("中"), []byte("\xe9"), []byte("\xc3"), []byte("\xf0\x9f\x98\x80"), {0xc2, 0x80}, {0xef, 0xbf, 0xbd},
+	[]byte("\u3000"), []byte("\u3000"), []byte("\u00a0"), []byte("\u2003"), []byte("\ufeff"), []byte("\u200b"), []byte("e\u0301"), []byte("\u2028")}
 
 func genBytesBiased(rt *rapid.T, label string, l int, pad byte) []byte {
+	if l > 0 && rapid.IntRange(0, 13).Draw(rt, label+".dict") == 13 {
+		// a constant harvested from the source of the tree under test, fitted to the length
+		if w, ok := dictWord(rt, label); ok {
+			if len(w) >= l {
+				return append([]byte{}, w[:l]...)
+			}
+			fill := bytes.Repeat([]byte{pad}, l-len(w))
+			if rapid.Bool().Draw(rt, label+".dictside") {
+				return append(append([]byte{}, w...), fill...)
+			}
+			return append(fill, w...)
+		}
+	}
 	out := make([]byte, 0, l)
 	mode := rapid.IntRange(0, 6).Draw(rt, label+".mode")
 	if mode == 0 { // all pad
